@@ -27,7 +27,7 @@ KEYS = ["up", "down", "page up", "page down", "home", "end"]
 THUMB = "█"
 TROUGH = "|"
 CHARS = "ABCDEFGHIJKLMNOPQRSTUVWXYZabcdefghijklmnopqrstuvwxyz0123456789"
-EXACT_KINDS = ("probe", "fixed", "text", "wtext")   # no cursor in the wrapped widget: the history fixes the position
+EXACT_KINDS = ("probe", "fixed", "text", "wtext", "cols")   # no cursor in the wrapped widget: the history fixes the position
 
 
 def _label(i):
@@ -167,6 +167,16 @@ class Subject:
                 urwid.Edit("", CHARS[36:36 + 4 + cseed % 5]), urwid.Text(CHARS[50:52])])
             if cseed % 2:
                 self.widget.focus_position = 3
+        elif kind == "cols":
+            # a Pile holding Columns whose cells have unequal heights and are built differently: a Pile of one-row Texts beside one
+            # Text of several rows beside a Pile of two Texts -- in the canvas the tall cells continue across several row groups
+            k = max(2, total)
+            self.head = urwid.Text(self._lines(1 + cseed % 3))
+            left = urwid.Pile([urwid.Text(CHARS[26 + i]) for i in range(k)])
+            mid = urwid.Text("\n".join(DIGITS[i] for i in range(max(1, k - 1 + cseed % 3))))
+            right = urwid.Pile([urwid.Text("\n".join(CHARS[10 + i] for i in range(k // 2 + 1))), urwid.Text("\n".join(CHARS[18 + i] for i in range(k // 2)) or "z")])
+            cells = [left, mid, right] if cseed % 2 else [mid, left, right]
+            self.widget = urwid.Pile([self.head, urwid.Columns(cells), urwid.Text("-\n=\n+"[: 1 + 2 * (cseed % 3)])])
         else:
             raise ValueError(kind)
 
@@ -201,7 +211,7 @@ class Subject:
             self.widget.set_text(self._cells(n))
         elif k == "edit":
             self.widget.set_edit_text(self._edit_text(n))
-        elif k == "pile":
+        elif k in ("pile", "cols"):
             self.head.set_text(self._lines(max(1, min(n, 14))))
 
     def observe(self, body, cw, focus=True):
@@ -378,11 +388,47 @@ def first_row(urwid, walker, body, cw):
     return [0, 0] if cands else [-1, -1]
 
 
-def listbox_history(items, w, h, ops, bar=(1, "right"), held=False):
+def _lazy_walker(urwid, widgets, hint):
+    """A list walker over `widgets` that does not know its length: no __len__, only an ESTIMATE (__length_hint__) that may be
+    lower than the real length (lazily generated lists)."""
+
+    class LazyWalker(urwid.ListWalker):
+        def __init__(self):
+            self.focus = 0
+
+        def __length_hint__(self):
+            return hint
+
+        def _get(self, pos):
+            if pos is None or not 0 <= pos < len(widgets):
+                return None, None
+            return widgets[pos], pos
+
+        def get_focus(self):
+            return self._get(self.focus)
+
+        def set_focus(self, position):
+            if not 0 <= position < len(widgets):
+                raise IndexError(position)
+            self.focus = position
+            self._modified()
+
+        def get_next(self, position):
+            return self._get(position + 1)
+
+        def get_prev(self, position):
+            return self._get(position - 1)
+
+    return LazyWalker()
+
+
+def listbox_history(items, w, h, ops, bar=(1, "right"), held=False, hint=None):
     """items: [typ, n]: typ 0 = Text of n lines, 1 = Text of n cells wrapped anywhere, 2 = multi-line Edit of n lines.
     ops: ('key', k) | ('set', idx, n) (height changed IN PLACE, the walker is not told) | ('append', typ, n) | ('pop', idx)
          | ('h', n) | ('w', n) | ('wheel', b) | ('click', col, row) | ('render',)
-    held: every canvas rendered in the history stays referenced."""
+    held: every canvas rendered in the history stays referenced.
+    hint: None = a sized walker (SimpleFocusListWalker); a number = a walker without __len__ whose __length_hint__ answers that
+          number whatever the real length is (ops 'append' / 'pop' are not used there)."""
     import urwid
 
     urwid.set_encoding("utf-8")
@@ -401,7 +447,11 @@ def listbox_history(items, w, h, ops, bar=(1, "right"), held=False):
         return urwid.Text(text_for(0, n, i))
 
     widgets = [build(t, n, i) for i, (t, n) in enumerate(items)]
-    walker = urwid.SimpleFocusListWalker(list(widgets))
+    if hint is None:
+        walker = content = urwid.SimpleFocusListWalker(list(widgets))
+    else:
+        content = list(widgets)
+        walker = _lazy_walker(urwid, content, hint)
     lb = urwid.ListBox(walker)
     log = []
     _spy(lb, log, "box")
@@ -413,7 +463,7 @@ def listbox_history(items, w, h, ops, bar=(1, "right"), held=False):
 
     def model_items():
         out = []
-        for wd in walker:
+        for wd in content:
             if isinstance(wd, urwid.Edit):
                 out.append([0, wd.edit_text.count("\n") + 1])
             elif wd.wrap == "any":
@@ -424,7 +474,8 @@ def listbox_history(items, w, h, ops, bar=(1, "right"), held=False):
 
     def render(after="init"):
         e = {"t": "lbrender", "exc": "", "after": after, "items": model_items(), "w": state["w"], "h": state["h"], **common, "bar": 0, "top": 0, "thumb": 0,
-             "bottom": 0, "calls": [], "cw": state["w"], "p": 0, "rmax": 0, "fvp": 0, "first": [0, 0], "cached": 0, "fitem": 0}
+             "bottom": 0, "calls": [], "cw": state["w"], "p": 0, "rmax": 0, "fvp": 0, "first": [0, 0], "cached": 0, "fitem": 0,
+             "hint": len(content) if hint is None else hint, "sized": 1 if hint is None else 0}
         del log[:]
         try:
             canv = sb.render((state["w"], state["h"]), True)
@@ -442,8 +493,8 @@ def listbox_history(items, w, h, ops, bar=(1, "right"), held=False):
                 e["p"] = lb.get_scrollpos((e["cw"], state["h"]), True)
                 e["rmax"] = lb.rows_max((e["cw"], state["h"]), True)
                 e["fvp"] = lb.get_first_visible_pos((e["cw"], state["h"]), True)
-                e["first"] = first_row(urwid, walker, body, e["cw"])
-                e["fitem"] = (walker.focus + 1) if len(walker) and walker.focus is not None else 0      # counted for vacuity only
+                e["first"] = first_row(urwid, content, body, e["cw"])
+                e["fitem"] = (walker.focus + 1) if len(content) and walker.focus is not None else 0      # counted for vacuity only
         except Exception as ex:  # noqa: BLE001
             e["exc"] = type(ex).__name__
         ev.append(e)
@@ -472,17 +523,17 @@ def listbox_history(items, w, h, ops, bar=(1, "right"), held=False):
                 e["col"], e["row"] = pos
                 e["boxpos"], e["innerpos"] = _positions(log)[0], []
             ev.append(e)
-        elif op[0] == "set" and len(walker):
-            wd = walker[op[1] % len(walker)]
+        elif op[0] == "set" and len(content):
+            wd = content[op[1] % len(content)]
             if isinstance(wd, urwid.Edit):
                 wd.set_edit_text(text_for(2, op[2], op[1]))
             elif wd.wrap == "any":
                 wd.set_text(text_for(1, op[2], op[1]))
             else:
                 wd.set_text(text_for(0, op[2], op[1]))
-        elif op[0] == "append":
+        elif op[0] == "append" and hint is None:
             walker.append(build(op[1], op[2], len(walker) + 7))
-        elif op[0] == "pop" and len(walker):
+        elif op[0] == "pop" and len(walker) and hint is None:
             del walker[op[1] % len(walker)]
         elif op[0] == "h":
             state["h"] = op[1]
@@ -491,7 +542,37 @@ def listbox_history(items, w, h, ops, bar=(1, "right"), held=False):
         render(op[0])
     del keep[:]
     return {"kind": "listbox", "total": 0, "items": [list(i) for i in items], "w": w, "h": h, "ops": [list(o) for o in ops], "bar": list(bar),
-            "eat": [], "lazy": 0, "cseed": 0, "held": 1 if held else 0, "ev": ev}
+            "eat": [], "lazy": 0, "cseed": 0, "held": 1 if held else 0, "hint": -1 if hint is None else hint, "ev": ev}
+
+
+def lazy_lb_histories(rng, quick):
+    """ListBox over a walker that only ESTIMATES its length (no __len__, a __length_hint__ below the real length), long enough for the
+    ScrollBar's item-based (relative) protocol, walked through EVERY position to the end and back: past the estimate the first
+    visible item exceeds the estimated maximum."""
+    out = []
+    for h, n, hint in ((5, 40, 18), (3, 24, 10), (2, 15, 7), (4, 30, 29), (1, 9, 4)) if quick else \
+            [(h, n, hint) for h in (1, 2, 3, 4, 5, 6) for n in (3 * h + 3, 6 * h + 5, 10 * h) for hint in (3 * h + 1, (3 * h + 1 + n) // 2, n - 1)]:
+        items = [[0, 1] for _ in range(n)]
+        ops = [("key", "down")] * (n + 1) + [("key", "up")] * 3 + [("key", "page up")] * 2 + [("key", "page down")] * 3
+        out.append(listbox_history(items, 8, h, ops, bar=(1, "right"), hint=hint))
+    for _ in range(6 if quick else 200):
+        h = rng.randint(1, 6)
+        n = rng.randint(3 * h + 4, 8 * h + 6)
+        hint = rng.randint(3 * h + 1, n - 1)
+        items = [[rng.choice([0, 0, 1, 2]), rng.randint(1, 3)] for _ in range(n)]
+        ops = []
+        for _k in range(rng.randint(3, 8)):
+            r = rng.random()
+            if r < 0.75:
+                ops += [("key", rng.choice(["down", "down", "page down", "page down", "up", "page up"]))] * rng.randint(1, n)
+            elif r < 0.85:
+                ops += [("wheel", rng.choice([4, 5]))] * rng.randint(1, 3)
+            elif r < 0.92:
+                ops.append(("h", rng.randint(1, min(6, (hint - 1) // 3))))
+            else:
+                ops.append(("set", rng.randint(0, n - 1), rng.choice([1, 2, 3])))
+        out.append(listbox_history(items, rng.randint(6, 10), h, ops, bar=rng.choice([(1, "right"), (2, "left")]), held=rng.random() < 0.3, hint=hint))
+    return out
 
 
 def random_lb(rng, quick, held=False):
@@ -667,6 +748,7 @@ def _handle(chk, traces, res):
         rp["ops"] = tr["ops"]       # the whole history (events do not map one-to-one to ops); the verdict names the event
         if tr["kind"] == "listbox":
             rp["items"] = tr["items"]
+            rp["hint"] = tr.get("hint", -1)
         rp["observed"] = e
         rp["event_index"] = l
         if chk.reject(f"C20.{why}", sig, rp) == "known" and why in SECOND_PASS:
@@ -716,9 +798,9 @@ def _vacuity_counts(traces):
                             bump("listbox.first_item_cut_at_top.is_focus")
                             if lastkey in ("up", "page up"):
                                 bump("listbox.first_item_cut_at_top.is_focus.after_up")
-                        if len(e["items"]) > 3 * e["h"]:
+                        if e["hint"] > 3 * e["h"]:
                             bump("listbox.first_item_cut_at_top.relative")
-                    if lastr is not None and lastr.get("t") == "lbrender" and e["bar"] and lastr["bar"] and len(e["items"]) <= 3 * e["h"] \
+                    if lastr is not None and lastr.get("t") == "lbrender" and e["bar"] and lastr["bar"] and e["hint"] <= 3 * e["h"] \
                             and (e["items"], e["cw"], e["h"]) == (lastr["items"], lastr["cw"], lastr["h"]) and e["first"] != lastr["first"]:
                         bump("listbox.thumb_followed_to_another_position")
                 elif e["items"]:
@@ -728,6 +810,8 @@ def _vacuity_counts(traces):
             if e["t"] == "key":
                 lastkey = e["key"]
             if e["t"] == "render":
+                if t["kind"] == "cols" and not e["exc"] and e.get("p", 0) > 3 and e["total"] > e["h"]:
+                    bump("cols.cut_inside_cells_spanning_row_groups")
                 if e.get("p", 0) > 0:
                     nontriv.add((t["kind"], e["total"], e["h"], e["p"], e.get("bar", 0)))
                 fits = e["total"] <= e["h"]
@@ -744,7 +828,11 @@ def _vacuity_counts(traces):
                 lastr, quiet = e, True
                 nren += 1
             elif e["t"] == "lbrender":
-                exactrows = len(e["items"]) <= 3 * e["h"]
+                exactrows = e["hint"] <= 3 * e["h"]
+                if not e["sized"] and not exactrows:
+                    bump("listbox.estimated_length.relative")
+                    if e["hint"] < len(e["items"]) and not e["exc"] and e["fvp"] > e["hint"]:
+                        bump("listbox.estimated_length.first_visible_past_the_estimate")
                 inplace = e["after"] == "set"
                 if lastr is not None and inplace and exactrows and nren >= 2 and e["w"] == lastr["w"] and e["h"] == lastr["h"] and not e["exc"]:
                     bump("listbox.inplace_change.same_size")
@@ -808,9 +896,16 @@ def generate(chk, quick):
                     for a in inputs:
                         b = inputs[(len(traces) * 7 + cseed) % len(inputs)]
                         traces.append(run_history(kind, total, 9, h, [a, b], bar=bar, cseed=cseed))
+    # ---- content whose cells span several row groups of the canvas (Pile > Columns of unequal cells): EVERY scroll position ----
+    for k in (3, 6) if quick else (2, 3, 4, 6, 9):
+        for h in (2, 4) if quick else (1, 2, 3, 4, 6):
+            for cseed in (0, 1, 5) if quick else range(6):
+                for bar in (None, (1, "right")):
+                    ops = [("setpos", p) for p in range(1, k + 9)] + [("key", "up")] * 3 + [("key", "page up"), ("key", "down")]
+                    traces.append(run_history("cols", k, 8, h, ops, bar=bar, cseed=cseed, held=cseed == 5))
     # ---- seeded random histories: kinds x bar x consumption x lazy ----
     n_rand = 1500 if quick else 60000
-    kinds = ["probe", "probe", "fixed", "text", "wtext", "edit", "pile"]
+    kinds = ["probe", "probe", "fixed", "text", "wtext", "edit", "pile", "cols"]
     for i in range(n_rand):
         kind = kinds[i % len(kinds)]
         bar = [None, (1, "right"), (2, "left"), (1, "left")][(i // len(kinds)) % 4]
@@ -852,6 +947,8 @@ def generate(chk, quick):
                 ops = [("key", "down")] * downs + [("set", 0, b), ("render",), ("key", "up"), ("key", "down"), ("set", 0, a), ("render",), ("key", "down")]
                 for held in (True, False):
                     traces.append(listbox_history([[0, a], [2, 1], [0, h + 3], [0, 2]], 8, h, ops, bar=((1, "right"), (2, "left"))[len(traces) % 2], held=held))
+    # ---- a walker that only estimates its length (too low): the item-based protocol past the estimate ----
+    traces += lazy_lb_histories(rng, quick)
     # ---- held canvases: size / focus A, B, A ----
     traces += held_histories(quick)
     return traces
@@ -913,7 +1010,8 @@ def run(chk):
                        "widget for render / keypress / mouse_event; non-trivial = distinct (kind, total, h, p>0, bar) rendered")
     chk.cov["exhaustive"] = True
     need = ["probe.consumed", "probe.render.bar", "fixed.render", "text.render.bar", "wtext.render.bar", "edit.render.bar", "pile.render.bar",
-            "listbox.lbrender.bar", "listbox.lbrender", "listbox.relative", "listbox.inplace_change.same_size",
+            "listbox.lbrender.bar", "listbox.lbrender", "listbox.relative", "listbox.estimated_length.relative", "cols.cut_inside_cells_spanning_row_groups",
+            "listbox.estimated_length.first_visible_past_the_estimate", "listbox.inplace_change.same_size",
             "listbox.inplace_change.bar_appears_or_goes", "quiet_render.fit_to_overflow.after_key_while_fitting", "lazy_render",
             "sb.keypress.nobar", "sb.keypress.bar", "sb.mouse_event.nobar", "sb.mouse_event.bar",
             "sb.keypress.reaches_flow_widget.nobar", "sb.mouse_event.reaches_flow_widget.nobar", "probe.setpos", "sb.click.bar_left", "sb.click.bar_right",
@@ -946,7 +1044,8 @@ def replay(chk, path):
     with open(path) as f:
         rp = json.load(f)["replay"]
     if rp["kind"] == "listbox":
-        tr = listbox_history(rp["items"], rp["w"], rp["h"], [tuple(o) for o in rp["ops"]], bar=tuple(rp["bar"]), held=bool(rp.get("held")))
+        tr = listbox_history(rp["items"], rp["w"], rp["h"], [tuple(o) for o in rp["ops"]], bar=tuple(rp["bar"]), held=bool(rp.get("held")),
+                             hint=rp.get("hint") if rp.get("hint", -1) >= 0 else None)
     else:
         tr = run_history(rp["kind"], rp["total"], rp["w"], rp["h"], [tuple(o) for o in rp["ops"]], bar=tuple(rp["bar"]) if rp["bar"] else None,
                          eat=rp["eat"], lazy=bool(rp.get("lazy")), cseed=rp.get("cseed", 0), held=bool(rp.get("held")))
